@@ -896,9 +896,10 @@ def c05(prop, tier):
     work = tempfile.mkdtemp(prefix="vC05_")
     try:
         machinery, fail_paths, samples = [], [], []
-        # every haystack of length <= 2 (quick) resp. <= 3 (thorough) over the pattern's alphabet: the pumped families of the
-        # quick tier are a subset of the thorough tier's
-        jobs = [(fam, dict(c, Budget=60 if q else 400, LCap=2 if q else 3))
+        # every 2-symbol haystack over the pattern's alphabet, pumped whole to 128..2048 bytes - the SAME measurement in both tiers
+        # (a verdict is a property of the series of measurements, so the quick tier must measure exactly what the thorough tier
+        # measures, on a third of one shard instead of every shard of the universe)
+        jobs = [(fam, dict(c, Budget=60, LCap=2))
                 for fam, c in search_jobs(tier, ["CC", "REV", "G2a", "CAP", "LIT", "DIG", "ANC", "G2u", "TRI", "G1"], False, 1.0)]
         if q:   # a third of the shard's patterns (indices i with i % 3n = s are a subset of those with i % n = s); G1 only in the thorough tier
             jobs = [(f, dict(c, NShards=c["NShards"] * 3)) for f, c in jobs if f != "G1"]
@@ -917,7 +918,7 @@ def c05(prop, tier):
                 for part in range(nparts):
                     rp, fp = os.path.join(work, f"rep_{i}_{part}.json"), os.path.join(work, f"fail_{i}_{part}.ndjson")
                     procs.append((subprocess.Popen([vcov, "work", "-in", out, "-report", rp, "-fail", fp, "-part", str(part), "-parts", str(nparts),
-                                                    "-maxn", "2048" if q else "8192"] + ([] if q else ["-splits"]), stdout=subprocess.PIPE, stderr=subprocess.PIPE, text=True), rp, fp))
+                                                    "-maxn", "2048", "-maxhay", "2"], stdout=subprocess.PIPE, stderr=subprocess.PIPE, text=True), rp, fp))
                 for pr, rp, fp in procs:
                     try:
                         _, err = pr.communicate(timeout=3000)
@@ -947,7 +948,7 @@ def c05(prop, tier):
         kf, known_hit, violations, total = vlib.classify(fail_paths, prop)
         coverage = {"evaluations": agg["calls"], "distinct_nontrivial": agg["nontrivial"],
                     "rule": "TLC enumerates pattern-family shards; per pattern up to 3 haystacks of its record are split u.v.w four ways and pumped to "
-                            "u.v^k.w with n = 128..2048 (quick) / 8192 (thorough); work = executed basic blocks of library code (runtime/coverage "
+                            "v^k with n = 128..2048 in both tiers; work = executed basic blocks of library code (runtime/coverage "
                             "counters), second of two identical calls, for Match, FindIndex, FindSubmatchIndex; a series is non-trivial/distinct per "
                             "(pattern, u, v, w, api); superlinear iff log-log slope > 1.35 and the last two doubling ratios > 2.4 and work > 50k blocks; "
                             "compile work on 8 pattern-text families pumped to 1024 bytes (degree <= 3)",
